@@ -57,6 +57,7 @@ const (
 	kpStatusKept
 	kpTwoClientRecv
 	kpSpoofAhead
+	kpAckTruncated
 	nKProbes
 )
 
@@ -67,7 +68,7 @@ var kProbeNames = []string{"unsolicited_record_skipped_inside_call", "eagain_x9_
 	"waitacks_with_nothing_pending", "waitacks_called_again_after_error", "repeated_close_was_noop", "second_close_blocked_in_once",
 	"close_cleared_pid", "getrules_buffer_overwritten_later", "sends_overlapped_in_time", "receive_short_datagram", "receive_foreign_port_id",
 	"receive_non_netlink_address", "short_after_long_datagram", "send_payload_8970", "send_with_caller_pid", "porcupine_histories_checked",
-	"sendto_failed", "kernel_immutable", "receive_foreign_port_id_with_group_mask", "receive_foreign_port_id_2^31_or_more", "getstatus_result_checked_again_at_end", "receive_on_two_independent_clients_in_tasks", "forged_reply_queued_ahead_of_the_kernels"}
+	"sendto_failed", "kernel_immutable", "receive_foreign_port_id_with_group_mask", "receive_foreign_port_id_2^31_or_more", "getstatus_result_checked_again_at_end", "receive_on_two_independent_clients_in_tasks", "forged_reply_queued_ahead_of_the_kernels", "ack_datagram_truncated"}
 
 var kFaultNames = []string{"injected_errno", "unsolicited_records", "stale_reply", "delayed_reply", "truncated_or_padded_reply", "spoofed_datagram",
 	"recv_eintr", "recv_eagain_injected", "recv_eagain_natural", "sendto_errno", "concurrent_close_tasks", "concurrent_send_tasks"}
@@ -418,6 +419,11 @@ func (c *kctx) execOp(i int, op KOp) {
 	for _, r := range reqs {
 		if r.StaleAhead {
 			relaxed = true
+		}
+		if f := faultOf(c.p, r.Idx); f.AckShort != 0 && f.AckShort-1 < 20 {
+			// the verdict was truncated away: the call may fail, it must not claim success for a refused request
+			relaxed = true
+			c.res.Probes[kpAckTruncated]++
 		}
 		if faultOf(c.p, r.Idx).Spoof != 0 && c.realNL != nil {
 			// a forged reply was queued ahead of the kernel's: the call may be
